@@ -444,7 +444,9 @@ class DictArithmetic(dict):
 
         """
         if isinstance(other, dict):
-            for k, v in other.items():
+            # tuple(...) because ``other`` may be ``self`` (ie ``d -= d``), in
+            # which case keys are removed from it while we iterate.
+            for k, v in tuple(other.items()):
                 self[k] -= v
         else:
             self[()] -= other
